@@ -16,11 +16,11 @@ import sys
 
 VERIF = os.path.dirname(os.path.dirname(os.path.abspath(__file__)))
 SCRATCH = "/tmp/srcmut"
-TARGETS = ["Proofs/SrcFmFacts.vo", "Proofs/SrcTreeOpsFacts.vo", "Proofs/SrcCtcFacts.vo", "Proofs/SrcEstimateFacts.vo",
-           "Proofs/SrcCoreFacts.vo", "Proofs/SrcVpFacts.vo", "Proofs/SrcJsonFacts.vo", "Proofs/SrcSplitFacts.vo",
-           "Proofs/SrcObjFacts.vo", "Proofs/SrcTieC03.vo", "Proofs/SrcTieC05.vo", "Proofs/SrcTieC13.vo",
-           "Proofs/SrcTieC14.vo", "Proofs/SrcTieC16.vo", "Proofs/SrcTieC18.vo"]
-READ = ["models/feature_model.py", "operations/fm_", "transformations/json_writer.py"]
+TARGETS = ["Proofs/" + os.path.basename(f)[:-2] + ".vo"
+           for f in sorted(glob.glob(os.path.join(os.path.dirname(os.path.dirname(os.path.abspath(__file__))), "coq", "Proofs", "Src*.v")))]
+READ = ["models/feature_model.py", "operations/fm_", "transformations/json_writer.py", "transformations/glencoe_writer.py",
+        "transformations/pl_writer.py", "transformations/splot_writer.py", "transformations/clafer_writer.py",
+        "transformations/afm_writer.py"]
 
 
 def sh(cmd, cwd=None, timeout=1800):
